@@ -131,24 +131,42 @@ def generateAll : List PatchPlan → ℕ → List (NdArr ℤ) × ℕ
     (r.1 :: rest.1, rest.2)
 
 /-- the array seen through a view. -/
-def resolveView (arrays : Array (NdArr ℤ)) (v : CpView) : NdArr ℤ :=
+def resolveView {α : Type} [Inhabited α] (arrays : Array (NdArr α)) (v : CpView) : NdArr α :=
   v.path.foldl (fun a s => a.sect s) (arrays.getD v.top default)
 
-/-- one iteration of the loop of `read_cp_numbers` of the top node at position `k`. -/
-def readFace (k : ℕ) (arrays : Array (NdArr ℤ)) (f : FaceLink) : Except NErr (Array (NdArr ℤ)) :=
+/-- one iteration of the loop of `read_cp_numbers` of the top node at position `k`
+    (generic in the entry type: the loop only moves entries around). -/
+def readFace {α : Type} [Inhabited α] (k : ℕ) (arrays : Array (NdArr α)) (f : FaceLink) :
+    Except NErr (Array (NdArr α)) :=
   if f.owned then .ok arrays
-  else do
-    let ori ← liftM f.ori
-    let some v := f.src | .error .attribute
-    let mapped := ori.mapArray (resolveView arrays v)
-    let self := arrays.getD k default
-    if mapped.shape ≠ sectionShape f.sec self.shape then .error .value
-    else .ok (arrays.setIfInBounds k (self.setSect f.sec mapped))
+  else
+    match f.ori with
+    | .error e => .error (.m e)
+    | .ok ori =>
+      match f.src with
+      | none => .error .attribute
+      | some v =>
+        let mapped := ori.mapArray (resolveView arrays v)
+        let self := arrays.getD k default
+        if mapped.shape ≠ sectionShape f.sec self.shape then .error .value
+        else .ok (arrays.setIfInBounds k (self.setSect f.sec mapped))
 
-/-- `TopologicalNode.read_cp_numbers` of the top node at position `k`. -/
-def readOne (k : ℕ) (p : PatchPlan) (arrays : Array (NdArr ℤ)) : Except NErr (Array (NdArr ℤ)) := do
-  let arrays ← p.faces.foldlM (readFace k) arrays
-  if (arrays.getD k default).data.any (· == -1) then .error .assertion else .ok arrays
+/-- the loop of `read_cp_numbers` of the top node at position `k`. -/
+def readOneG {α : Type} [Inhabited α] (k : ℕ) (p : PatchPlan) (arrays : Array (NdArr α)) :
+    Except NErr (Array (NdArr α)) :=
+  p.faces.foldlM (readFace k) arrays
+
+/-- `TopologicalNode.read_cp_numbers` of the top node at position `k`: the loop, then
+    `assert (self.cp_numbers != -1).all()`. -/
+def readOne (k : ℕ) (p : PatchPlan) (arrays : Array (NdArr ℤ)) : Except NErr (Array (NdArr ℤ)) :=
+  match readOneG k p arrays with
+  | .error e => .error e
+  | .ok arrays => if (arrays.getD k default).data.any (· == -1) then .error .assertion else .ok arrays
+
+/-- second loop of `SplineModel.generate_cp_numbers` without the assertions (transport only). -/
+def readAllG {α : Type} [Inhabited α] (plans : List PatchPlan) (arrays : Array (NdArr α)) :
+    Except NErr (Array (NdArr α)) :=
+  plans.zipIdx.foldlM (fun arrs (pk : PatchPlan × ℕ) => readOneG pk.2 pk.1 arrs) arrays
 
 /-- second loop of `SplineModel.generate_cp_numbers`. -/
 def readAll (plans : List PatchPlan) (arrays : Array (NdArr ℤ)) : Except NErr (Array (NdArr ℤ)) :=
@@ -269,6 +287,37 @@ def PatchPlan.same (a b : PatchPlan) : Bool :=
   a.shape == b.shape && a.faces.length == b.faces.length &&
   (List.zip a.faces b.faces).all fun ab => ab.1.same ab.2
 
+/-! ## geometric points and conforming nets (used by the statement of the property) -/
+
+/-- the geometric point of a control point of `o` (weight divided out when rational). -/
+def geomPoint (o : Obj) (p : List ℚ) : List ℚ :=
+  if o.rational then p.dropLast.map (· / lastD p) else p
+
+/-- the geometric points of the control net, flat C order -/
+def ptsOf (o : Obj) : List (List ℚ) := o.cps.data.toList.map (geomPoint o)
+
+/-- the coincidence of the control points `a[ia]` and `b[ib]` is explained by a common entity of
+    lower dimension: sections `sa ∋ ia`, `sb ∋ ib` of the same dimension that `Orientation.compute`
+    matches, the orientation taking `ia` to `ib`. -/
+def explainedBy (a b : Obj) (ia ib : List ℕ) : Bool :=
+  (List.range a.pardim).any fun d =>
+    (sections a.pardim d).any fun sa => onSection sa a.shape ia &&
+      (sections b.pardim d).any fun sb => onSection sb b.shape ib &&
+        match Orientation.compute (a.sect sa) (b.sect sb) with
+        | .ok o => o.mapIndex (b.sect sb).shape (projectSection sa ia) == projectSection sb ib
+        | .error _ => false
+
+/-- **conforming control nets**: whenever two control points of the history (of different patches,
+    or two different control points of one patch) are the same geometric point, they lie on a
+    common lower-dimensional entity of the two patches. -/
+def conformingNets (objs : List Obj) : Bool :=
+  (List.range objs.length).all fun k => (List.range (k + 1)).all fun k' =>
+    let a := objs.getD k default
+    let b := objs.getD k' default
+    (List.range a.cps.data.size).all fun j => (List.range b.cps.data.size).all fun j' =>
+      (k == k' && j ≤ j') || (ptsOf a).getD j [] != (ptsOf b).getD j' [] ||
+        explainedBy a b (unravel a.shape j) (unravel b.shape j')
+
 /-- State after `generate_cp_numbers` (and, when run, `generate_cell_numbers`). -/
 structure Numbered where
   sm : SplineModel
@@ -300,14 +349,15 @@ def SplineModel.plans (sm : SplineModel) : List PatchPlan :=
 def Numbered.cpOf (r : Numbered) (node : ℕ) : Option (NdArr ℤ) :=
   (r.views.getD node none).map (resolveView r.cp)
 
-/-- `SplineModel.cps()`: `cps[indices] = values` per top node, in order.
+/-- `SplineModel.cps()` on plain data: `cps = zeros((ncps, dimension))`, then
+    `cps[indices] = values` per top node, in order.
     `controlpoints.reshape(-1, dimension)` + the fancy assignment raise `ValueError` as soon as
     the net has another number of components than `dimension` (rational patches). -/
-def Numbered.cps (r : Numbered) : Except NErr (Array (List ℚ)) :=
-  r.tops.zipIdx.foldlM (fun (acc : Array (List ℚ)) (tk : ℕ × ℕ) =>
-    let o := (r.sm.cat.node tk.1).obj
-    let idxs := (r.cp.getD tk.2 default).data
-    if o.ncomp ≠ r.sm.dimension then .error .value
+def cpsTable (dimension : ℕ) (objs : List Obj) (cp : Array (NdArr ℤ)) (ncps : ℕ) : Except NErr (Array (List ℚ)) :=
+  objs.zipIdx.foldlM (fun (acc : Array (List ℚ)) (ok : Obj × ℕ) =>
+    let o := ok.1
+    let idxs := (cp.getD ok.2 default).data
+    if o.ncomp ≠ dimension then .error .value
     else
       (List.range idxs.size).foldlM (fun (acc : Array (List ℚ)) j =>
         let i := idxs.getD j 0
@@ -315,7 +365,11 @@ def Numbered.cps (r : Numbered) : Except NErr (Array (List ℚ)) :=
         let pos : ℤ := if i < 0 then i + acc.size else i
         if pos < 0 ∨ pos ≥ acc.size then .error .index
         else .ok (acc.setIfInBounds pos.toNat (o.cps.data.getD j []))) acc)
-    (Array.replicate r.ncps (List.replicate r.sm.dimension 0))
+    (Array.replicate ncps (List.replicate dimension 0))
+
+/-- `SplineModel.cps()`. -/
+def Numbered.cps (r : Numbered) : Except NErr (Array (List ℚ)) :=
+  cpsTable r.sm.dimension (r.tops.map fun t => (r.sm.cat.node t).obj) r.cp r.ncps
 
 /-! ## cell numbers -/
 
@@ -519,19 +573,31 @@ structure Conn where
   orient : ℕ
   deriving DecidableEq, Repr, Inhabited
 
-/-- `list(IFEMWriter(model).connections())` (`set(...)` iterated in SOME order: compare as a multiset). -/
-def SplineModel.connections (sm : SplineModel) : Except NErr (List Conn) := do
+/-- the body of the innermost loop: the two section objects, their relative orientation, the record. -/
+def SplineModel.connOf (sm : SplineModel) (q : ℕ × ℕ × ℕ × ℕ) : Except NErr Conn :=
   let p := sm.pardim
-  let tops := sm.tops
-  let lowers := tops.map fun t => (sm.cat.node t).lower.getD (p - 1) []
-  let nbrs := fun sub => ((((sm.cat.node sub).higherAt p).getD []).dedup).map (fun t => tops.idxOf t)
-  (connPairs lowers nbrs).mapM fun (q : ℕ × ℕ × ℕ × ℕ) => do
-    let node := sm.cat.node (tops.getD q.1 0)
-    let neigh := sm.cat.node (tops.getD q.2.2.1 0)
-    let some s1 := sectionFromIndex p (p - 1) q.2.1 | .error .index
-    let some s2 := sectionFromIndex p (p - 1) q.2.2.2 | .error .index
-    let ori ← liftM (Orientation.compute (node.obj.sect s1) (neigh.obj.sect s2))
-    let some fmt := ori.ifemFormat | .error (.m .runtime)
-    pure { master := q.1 + 1, slave := q.2.2.1 + 1, midx := q.2.1 + 1, sidx := q.2.2.2 + 1, orient := fmt }
+  let node := sm.cat.node (sm.tops.getD q.1 0)
+  let neigh := sm.cat.node (sm.tops.getD q.2.2.1 0)
+  match sectionFromIndex p (p - 1) q.2.1, sectionFromIndex p (p - 1) q.2.2.2 with
+  | some s1, some s2 =>
+    match Orientation.compute (node.obj.sect s1) (neigh.obj.sect s2) with
+    | .error e => .error (.m e)
+    | .ok ori =>
+      match ori.ifemFormat with
+      | some fmt => .ok { master := q.1 + 1, slave := q.2.2.1 + 1, midx := q.2.1 + 1, sidx := q.2.2.2 + 1, orient := fmt }
+      | none => .error (.m .runtime)
+  | _, _ => .error .index
+
+/-- `lower_nodes[p - 1]` of every top node, by position. -/
+def SplineModel.topLowers (sm : SplineModel) : List (List ℕ) :=
+  sm.tops.map fun t => (sm.cat.node t).lower.getD (sm.pardim - 1) []
+
+/-- `set(sub.higher_nodes[p])` as positions in `top_nodes()` (iterated in SOME order). -/
+def SplineModel.topNbrs (sm : SplineModel) (sub : ℕ) : List ℕ :=
+  ((((sm.cat.node sub).higherAt sm.pardim).getD []).dedup).map (fun t => sm.tops.idxOf t)
+
+/-- `list(IFEMWriter(model).connections())` (compare as a multiset: `set(...)` order). -/
+def SplineModel.connections (sm : SplineModel) : Except NErr (List Conn) :=
+  (connPairs sm.topLowers sm.topNbrs).mapM sm.connOf
 
 end Splipy.MP
